@@ -275,7 +275,7 @@ def run(ctx):
     ctx.require(len(row_fields) == 1, "cannot identify the row counter of SectionOutput (field incremented by ceil(len / width)): %s" % sorted(row_fields))
     ROWS = next(iter(row_fields))
     content_fields = {n.func.value.attr for m in sec.methods.values() for n in walk_no_nested(m.node) if isinstance(n, ast.Call) and isinstance(n.func, ast.Attribute)
-                      and n.func.attr == "append" and is_self_attr(n.func.value)}
+                      and n.func.attr in ("append", "extend") and is_self_attr(n.func.value)}
     # parameters of methods of the class that are rows: added to <x>.lines / to the row field
     row_params = {}
     for m in sec.methods.values():
@@ -397,7 +397,7 @@ def run(ctx):
     for name, m in sorted(sec.methods.items()):
         for loop in [n for n in walk_no_nested(m.node) if isinstance(n, ast.For)]:
             incs = [n for n in walk_no_nested(loop) if isinstance(n, ast.AugAssign) and is_self_attr(n.target, ROWS) and isinstance(n.op, ast.Add)]
-            apps = [c for c in walk_no_nested(loop) if isinstance(c, ast.Call) and isinstance(c.func, ast.Attribute) and c.func.attr == "append" and is_self_attr(c.func.value) and c.func.value.attr in content_fields
+            apps = [c for c in walk_no_nested(loop) if isinstance(c, ast.Call) and isinstance(c.func, ast.Attribute) and c.func.attr in ("append", "extend") and is_self_attr(c.func.value) and c.func.value.attr in content_fields
                     and c.args and not isinstance(c.args[0], ast.Constant)]
             if not incs or not apps:
                 continue
@@ -408,7 +408,12 @@ def run(ctx):
                     if isinstance(c, ast.Call) and c.args:
                         measured |= {norm(a) for a in c.args}
                 measured |= {norm(x) for x in ast.walk(inc.value) if isinstance(x, ast.Name)}
-            recorded = {norm(c.args[0]) for c in apps}
+            recorded = set()
+            for c in apps:
+                if c.func.attr == "extend" and isinstance(c.args[0], (ast.Tuple, ast.List)):
+                    recorded |= {norm(e_) for e_ in c.args[0].elts if not isinstance(e_, ast.Constant)}
+                else:
+                    recorded.add(norm(c.args[0]))
             if recorded <= measured:
                 r.ok("%s: rows of %s counted, %s recorded" % (m.short, ", ".join(sorted(recorded)), ", ".join(sorted(recorded))))
             else:
